@@ -1,5 +1,6 @@
 package main
 
 import (
+	_ "verifh/c09"
 	_ "verifh/c20"
 )
